@@ -295,6 +295,23 @@ def run_unit(unit, tier="quick", dev=False, only=None):
                 if not (wit and wit.get("found")):
                     o.violation_suffix = " no-failing-input-found"
                 o.replay = vpv.write_replay(prop, o.finding_keys[0], payload)
+        # ---- thorough tier: the unit's native differential search also runs as a SUPPLEMENT next to the proofs (it covers glue that is not
+        # under contract, e.g. iteration completeness, argument normalisation).  It is not an obligation and never counts as proved; a failing
+        # input it finds is a violation like any other.
+        supplement = None
+        if tier == "thorough" and unit.get("witness") and not only:
+            wit = unit["witness"](scratch)
+            supplement = dict(ran=True, found=bool(wit.get("found")), detail=(wit.get("input") or wit.get("note") or "")[:600], cmd=wit.get("cmd", ""))
+            if wit.get("found"):
+                o = Obligation(f"{prop}/bounded-differential-search", fn="(public API of the unit)", tool="native differential search", grade="bounded(small universes, see witness/)",
+                               backend="native execution of the real crate", where="witness/")
+                o.kind = "bounded"
+                o.status = REFUTED
+                o.detail = "thorough-tier supplement found a failing input: " + str(wit.get("input"))
+                o.finding_keys = [f"{prop}/bounded-differential-search"]
+                if any(k not in known for k in o.finding_keys):
+                    o.replay = vpv.write_replay(prop, o.finding_keys[0], dict(tool="native differential search (thorough-tier supplement)", witness=wit))
+                obls.append(o)
         assumptions = scan_assumptions(text)
         verified = js["verification-results"]["verified"]
         return obls, dict(level=unit.get("level", "proof"), explanation=unit["explanation"],
@@ -305,7 +322,8 @@ def run_unit(unit, tier="quick", dev=False, only=None):
                           wall_s=time.time() - t0,
                           extra=dict(rewrite_rules_hit=hits, verus_verified_total=verified, verus_errors_total=js["verification-results"]["errors"],
                                      verus_wall_s=round(wall, 1), canary=canary_info,
-                                     extracted_items_in_file=len(metas), generated_lines=text.count("\n"), havoc_stubs=havoced))
+                                     extracted_items_in_file=len(metas), generated_lines=text.count("\n"), havoc_stubs=havoced,
+                                     thorough_supplement=supplement))
     finally:
         if not dev:
             shutil.rmtree(scratch, ignore_errors=True)
